@@ -23,6 +23,9 @@ for d in sorted(glob.glob("/verif/seeded/*/")):
             if line.strip():
                 title = line.strip("# \n").replace("|", "/")[:130]
                 break
+    if meta.get("outside_property") and not det:
+        rows.append("| %s | not judged - outside the property as worded | n/a | %s |" % (name, title))
+        continue
     rows.append("| %s | %s | %s | %s |" % (name, ", ".join(det) or "MISSED", when, title))
 table = ["| seed | detected by (quick tier) | when | what the seeded change is |", "|---|---|---|---|"] + rows
 src = open("/verif/DESIGN.md").read().split("\n")
